@@ -210,6 +210,10 @@ class BGP(protocol.Protocol):
         if length < bgp_cons.HDR_LEN or length > bgp_cons.MAX_LEN:
             self.fsm.header_error(bgp_cons.ERR_MSG_HDR_BAD_MSG_LEN, struct.pack('!H', length))
             return False
+            # RFC 4271 6.1: a NOTIFICATION message is at least 21 octets long
+        if msg_type == bgp_cons.MSG_NOTIFICATION and length < 21:
+            self.fsm.header_error(bgp_cons.ERR_MSG_HDR_BAD_MSG_LEN, struct.pack('!H', length))
+            return False
             # Check whether the entire message is already available
         if len(buf) < length:
             return False
